@@ -95,18 +95,32 @@ def _fd_matrix(func, x0, rel=1e-3):
     n = x0.size
     J = np.zeros((f0.size, n))
     Err = np.zeros((f0.size, n))
+    n_kink = 0
     for j in range(n):
         h = rel * max(1.0, abs(x0[j]))
-        def cd(hh):
+        def both(hh):
             xp = x0.copy(); xp[j] += hh
             xm = x0.copy(); xm[j] -= hh
-            return (np.asarray(func(xp), dtype=float).ravel() - np.asarray(func(xm), dtype=float).ravel()) / (2 * hh)
-        d1, d2, d4 = cd(h), cd(h / 2), cd(h / 4)
+            fp, fm = np.asarray(func(xp), dtype=float).ravel(), np.asarray(func(xm), dtype=float).ravel()
+            return (fp - fm) / (2 * hh), (fp - 2 * f0 + fm) / hh      # central difference, forward minus backward difference
+        (d1, _), (d2, k2), (d4, k4) = both(h), both(h / 2), both(h / 4)
         r1 = (4 * d2 - d1) / 3
         r2 = (4 * d4 - d2) / 3
         rr = (16 * r2 - r1) / 15
         J[:, j] = rr
         Err[:, j] = np.abs(rr - r2) + 1e-12 * (np.abs(rr) + np.abs(f0) / h)
+        # kink (maximum/minimum/abs at a tie, e.g. maximum(x, x[-1]) on a flat path): the one-sided derivatives differ by an
+        # amount that does NOT shrink with the step (for a smooth function it is h*f'' and halves). The property quantifies over
+        # points away from kinks: such entries are left undecided
+        with np.errstate(invalid="ignore"):
+            kink = (np.abs(k4) > 0.75 * np.abs(k2)) & (np.abs(k4) > 1e-5 * (1 + np.abs(rr)))
+        if kink.any():
+            J[kink, j] = np.nan
+            n_kink += int(kink.sum())
+    if n_kink:
+        c_ = rt.ctx()
+        if c_ is not None:
+            c_.inconc("fd:entry-at-a-kink", n_kink)
     # a residual that is undefined on one side of x0 in some direction sits on the boundary of its domain (0**0.3,
     # log at 0, ...): the property quantifies over interior points only, so the whole row is left undecided
     edge = ~np.all(np.isfinite(J), axis=1)
@@ -130,7 +144,8 @@ def _compare(c, got, want, err, rtol, key, msg, case, detail=None, monitor="", o
     ill = ok_ref & (err > 1e-5 * (1 + np.abs(want)))
     if ill.any():
         c.inconc(f"{monitor}:fd-error-estimate-too-large", int(ill.sum()))
-    huge = ok_ref & (np.abs(want) > 1e8)
+    with np.errstate(invalid="ignore"):
+        huge = ok_ref & ((np.abs(want) > 1e8) | (np.abs(got) > 1e8))   # next to a pole (v[1]/v[-2] with v[-2] ~ 0) nothing is decided
     if huge.any():
         c.inconc(f"{monitor}:reference-derivative-huge", int(huge.sum()))
     cmp = ok_ref & ~ill & ~huge
